@@ -35,7 +35,7 @@ N_VIEWER_BLOCKS = {"quick": 32, "thorough": 320}
 DATASETS_PER_BLOCK = 8
 QUERIES_PER_DATASET = 8
 GRID_SHAPES = [(3, 4), (4, 2), (2, 3, 2), (3, 1, 3), (2, 2, 2, 2)]
-GRID_SELECTIONS = ["none", "ineq", "mask", "pixrange_kept", "pixrange_other", "empty", "not_slice", "or"]
+GRID_SELECTIONS = ["none", "ineq", "mask", "pixrange_kept", "pixrange_other", "empty", "not_slice", "or", "pix_roi"]
 
 RULE = ("random cases in blocks: a dataset (1-4 dimensions, axis lengths 1-4 (thorough 1-5), float column with "
         "NaN/+-inf/negative/duplicate values, injective float, int, categorical (1-d), derived, pixel and world "
@@ -314,6 +314,24 @@ def make_selection(rng, ds, kind, kept_axis=None):
         hi = lo + rng.choice([0.0, 0.5, 1.0, 2.0, 5.0])
         pk = ds.raw["pix%d" % k]
         return RangeSubsetState(lo, hi, d.pixel_component_ids[k]), (pk >= lo) & (pk <= hi)
+    if kind == "pix_roi":
+        # a rectangle on two pixel axes: on 3-d / 4-d data glue evaluates it on one plane and returns a BROADCAST mask
+        if ds.nd < 2:
+            return make_selection(rng, ds, "pixrange", kept_axis)
+        from glue.core.roi import RectangularROI
+        from glue.core.subset import RoiSubsetState
+        a, b = rng.sample(range(ds.nd), 2)
+        if kept_axis is not None and rng.random() < 0.5 and ds.nd > 2:
+            a, b = rng.sample([k for k in range(ds.nd) if k != kept_axis], 2)
+        lim = []
+        for k in (a, b):
+            lo = rng.choice([-0.5, 0.5, 1.5]) if shape[k] > 1 else -0.5
+            lim.append((lo, lo + rng.choice([1.0, 2.0, 3.0, 9.0])))
+        pa, pb = ds.raw["pix%d" % a], ds.raw["pix%d" % b]
+        m = (pa > lim[0][0]) & (pa < lim[0][1]) & (pb > lim[1][0]) & (pb < lim[1][1])
+        st = RoiSubsetState(xatt=d.pixel_component_ids[a], yatt=d.pixel_component_ids[b],
+                            roi=RectangularROI(xmin=lim[0][0], xmax=lim[0][1], ymin=lim[1][0], ymax=lim[1][1]))
+        return st, m
     if kind == "mask":
         p = rng.choice([0.1, 0.4, 0.8])
         m = np.array([rng.random() < p for _ in range(ds.size)]).reshape(shape)
@@ -328,7 +346,8 @@ def make_selection(rng, ds, kind, kept_axis=None):
     raise ValueError(kind)
 
 
-SEL_KINDS = ["none", "none", "none", "ineq", "ineq", "ineq", "slice_state", "slice_state", "slice_state", "pixrange",
+SEL_KINDS = ["none", "none", "none", "ineq", "ineq", "ineq", "slice_state", "slice_state", "slice_state", "pix_roi", "pix_roi",
+             "pix_roi", "pixrange",
              "pixrange", "mask", "mask", "mask", "empty", "not_slice", "not_slice", "and", "and", "or", "or"]
 
 
@@ -460,6 +479,15 @@ def run_stat_query(ctx, rng, ds, q, api="compute_statistic", indexed=None, sel=N
     if sel is None:
         return
     state, fullmask = sel
+    if q["sel_kind"] == "pix_roi" and state is not None:
+        try:
+            raw_mask = state.to_mask(ds.data, None)
+            if 0 in getattr(raw_mask, "strides", ()) and raw_mask.size > 1:
+                ctx.count("stat_selection_mask_is_broadcast_array")
+                if q["view"] is None or (isinstance(q["view"], tuple) and all(isinstance(x, slice) for x in q["view"])):
+                    ctx.count("stat_broadcast_mask_with_dimension_preserving_view")
+        except Exception:
+            pass
     if shortcut_slices is None and isinstance(state, SliceSubsetState) and state.reference_data is ds.data:
         shortcut_slices = list(state.slices)
     given_view = q["view"]
@@ -1727,7 +1755,8 @@ def run_case(ctx, case):
 
 def floors(counters, tier):
     out = []
-    need = {"stat_view_negative_bounds": 300, "stat_negative_bounds_view_with_selection_reaching_its_end": 150,
+    need = {"stat_sel_pix_roi": 300, "stat_selection_mask_is_broadcast_array": 200,
+            "stat_broadcast_mask_with_dimension_preserving_view": 150, "stat_view_negative_bounds": 300, "stat_negative_bounds_view_with_selection_reaching_its_end": 150,
             "stat_finite_false_with_infinities": 80, "stat_finite_false_lane_with_only_infinite_values": 30,
             "history_stat_calls": 150, "history_hist_calls": 80, "history_mask_rechecks": 300, "history_repeated_calls": 40,
             "history_fault_call_raised": 40, "viewer_history_histogram_reads": 30, "viewer_history_nudged_range": 6,
@@ -1747,7 +1776,7 @@ def floors(counters, tier):
             "profile_compared": 40, "histogram_layer_calls": 40, "indexed_data_calls": 20}
     for s in STATS:
         need["stat_%s" % s] = 150
-    for k in ("none", "ineq", "slice_state", "pixrange", "mask", "empty", "not_slice", "and", "or"):
+    for k in ("none", "ineq", "slice_state", "pixrange", "mask", "empty", "not_slice", "and", "or", "pix_roi"):
         need["stat_sel_%s" % k] = 40
     for k in ("none", "ellipsis", "slice_tuple_full", "slice_tuple_short", "int_slice_mix", "all_int", "empty_slice", "bare_slice"):
         need["stat_view_%s" % k] = 15
